@@ -58,7 +58,7 @@ P = {
              "(C07_connection_table_every_spelling: blank runs, continuation at ANY split points, any order of key=value properties "
              "with other keywords in between, sparse/unordered indices, star atoms with ENDPTS expansion, explicit zeros, D/T; "
              "C07_consecutive_renumbering: arbitrary unique indices are renumbered in file order; C07_text_to_graph: from the text, "
-             "any line-ending style, through version dispatch to the graph; C07_graph_from_file: text-mode reading (universal newlines) never changes the lines, so graph_from_file returns what graph_from_molfile_text returns on the decoded content), plus the line-level lemmas. The reader is tied by "
+             "any line-ending style, through version dispatch to the graph; C07_graph_from_file: text-mode reading (universal newlines) never changes the lines, so graph_from_file returns what graph_from_molfile_text returns on the decoded content; C07_graph_from_file_suffix: any suffix but .mol is refused with IOError), plus the line-level lemmas. The reader is tied by "
              "correspondence on spec-derived renderings, a malformed stream, star-atom special forms, renderings with unusual "
              "characters, and the interpreter's string layer itself (character classes of every code point, "
              "int/float/splitlines/rstrip/split); the probe compares the real reader's graph with the abstract molecule.",
